@@ -35,7 +35,7 @@ def generate(seed, tier, opts):
 
 def gen_one(seed):
     d = Decider(seed, "repro")
-    th, op = cards.gen_cards(d, real=True, max_targets=2, allow_dup=True)
+    th, op = cards.gen_cards(d, real=True, max_targets=2, allow_dup=True, qed_frac=0.08)
     if th["order"][0] > 1:
         op["mugrid"] = op["mugrid"][:2 if op["mugrid"][:1] == op["mugrid"][1:2] else 1]
     op["configs"]["n_integration_cores"] = d.pick("cores", [1, 2, 3, -1, -2, -3, 0])
